@@ -366,6 +366,23 @@ static void execParse(const lg::Pair &p, const std::vector<std::string> &w, cons
   bool ok2 = p.parse(m2, v2.data());
   for (int i = 0; i < p.nf; i++)
     if (p.f[i].inParser && (!ok2 || !sameVal(p.f[i], v[i], v2[i]))) C.fail(key(p, p.f[i].name, "junk"), "result depends on bytes behind the payload length");
+  // truncation: the same message cut to EVERY shorter length, parsed twice with different garbage behind DataLen -
+  // return value and every output must be identical (a getter whose bound check is off by one reads the garbage)
+  {
+    std::vector<lg::Val> a(p.nf), b(p.nf);
+    for (size_t L = 0; L < bytes.size(); L++) {
+      std::vector<unsigned char> cut(bytes.begin(), bytes.begin() + L);
+      tN2kMsg ma, mb; fillMsg(ma, pgn, cut, js + 1); fillMsg(mb, pgn, cut, js + 1);
+      for (int i = (int)L; i < tN2kMsg::MaxDataLen; i++) mb.Data[i] = (unsigned char)~ma.Data[i];
+      for (int i = 0; i < p.nf; i++) { a[i] = lg::Val(); b[i] = lg::Val(); }
+      bool ra = p.parse(ma, a.data()), rb = p.parse(mb, b.data());
+      bool same = ra == rb;
+      const char *which = "return value";
+      for (int i = 0; same && i < p.nf; i++) if (p.f[i].inParser && !sameVal(p.f[i], a[i], b[i])) { same = false; which = p.f[i].name; }
+      C.count("truncated_parses");
+      if (!same) { C.fail(std::string("C05:") + p.id + ":junk-dependent", "payload cut to %zu of %zu bytes: %s depends on the bytes behind DataLen", L, bytes.size(), which); break; }
+    }
+  }
   // dependency: fields of PGN 129029 only transmitted with exactly one reference station
   bool oneStation = true;
   for (int i = 0; i < p.nf; i++) if (excOf(p, p.f[i]) & 1) oneStation = (L.in[i].v.i == 1);
